@@ -119,10 +119,14 @@ package satisfaction_levels
 //@   property C14
 //@   assigns s
 //@   ensures [criteria] s.criteria == dmp.Criteria && len(s.criteriaValuesRanges) == len(dmp.Criteria)
-//@   ensures [ranges] forall k int :: 0 <= k && k < len(dmp.Criteria) ==> rangeOf(s.criteriaValuesRanges[k], *dmp, dmp.Criteria[k])
+//@   ensures [ranges_declared] forall k int :: 0 <= k && k < len(dmp.Criteria) && dmp.Criteria[k].ValuesRange != nil ==> s.criteriaValuesRanges[k] == *dmp.Criteria[k].ValuesRange
+//@   ensures [ranges_observed] forall k int :: 0 <= k && k < len(dmp.Criteria) && dmp.Criteria[k].ValuesRange == nil ==>
+//@              observedRange(s.criteriaValuesRanges[k], dmp.ConsideredAlternatives, dmp.NotConsideredAlternatives, dmp.Criteria[k].Id)
 //@   ensures [start] s.currentValue == initval(old(s.manager), old(s.MinValue), old(s.MaxValue))
 //@   ensures [params_kept] s.Coefficient == old(s.Coefficient) && s.MaxValue == old(s.MaxValue) && s.MinValue == old(s.MinValue) && s.manager == old(s.manager)
-//@   loop 1 invariant [ranges] forall k int :: 0 <= k && k < iter ==> rangeOf(s.criteriaValuesRanges[k], *dmp, dmp.Criteria[k])
+//@   loop 1 invariant [ranges_declared] forall k int :: 0 <= k && k < iter && dmp.Criteria[k].ValuesRange != nil ==> s.criteriaValuesRanges[k] == *dmp.Criteria[k].ValuesRange
+//@   loop 1 invariant [ranges_observed] forall k int :: 0 <= k && k < iter && dmp.Criteria[k].ValuesRange == nil ==>
+//@              model.observed(s.criteriaValuesRanges[k], alternatives, dmp.Criteria[k].Id)
 //@   loop 1 invariant [s] s.criteria == dmp.Criteria && len(s.criteriaValuesRanges) == len(dmp.Criteria) && fresh(s.criteriaValuesRanges)
 //@   loop 1 invariant [s2] s.Coefficient == old(s.Coefficient) && s.MaxValue == old(s.MaxValue) && s.MinValue == old(s.MinValue) && s.manager == old(s.manager)
 //@   loop 1 invariant [all] len(alternatives) == len(dmp.ConsideredAlternatives) + len(dmp.NotConsideredAlternatives)
